@@ -342,6 +342,7 @@ func exec(h H, rec *pbt.Rec) error {
 
 // Atomic visibility of a batch across tables, RocksDB only.
 func TestRocksAtomicBatch(t *testing.T) {
+	defer pbt.CleanWork()
 	rec := pbt.NewRec("C14", "TestRocksAtomicBatch", "a writer thread batches [HistoryTable B:=i, HyperTable A:=i] for i=1..N while a reader reads B then A; atomic batches imply A>=B at every read. evaluations = reads. Non-trivial: a read that happened between two writes (every read counts; distinct by read index).")
 	defer rec.Flush()
 	x, err := rig.StartExec("nodeexec")
